@@ -503,6 +503,35 @@ func (r *Runner) Do(idx int, s Step) *Mismatch {
 		// open a reader, let the collector and the cleaner run, then read to the end
 		rc, err := st.GetReader(ctx, s.Key)
 		var b []byte
+		if err == nil && len(s.Pieces)%2 == 1 {
+			// the value is overwritten while the reader is open, so that the pass really removes
+			// the content the reader holds: it must still deliver what was there when it was opened
+			e := r.M.Get(s.Actor, s.Key)
+			ow := Content(fmt.Sprintf("gc-ow-%d-%s", idx, s.Key), 9)
+			if werr := r.Env.DB.Set(ctx, s.Key, ow); werr != nil {
+				return r.mism(idx, s, "", "overwrite-failed", "ok", fmt.Sprint(werr))
+			}
+			r.M.Write(refmodel.Autocommit, s.Key, string(ow), false)
+			if cerr := r.Env.Collect(); cerr != nil {
+				return r.mism(idx, s, "", "collect-failed", "ok", fmt.Sprint(cerr))
+			}
+			if derr := r.Env.Drain(); derr != nil {
+				return r.mism(idx, s, "", "drain-failed", "ok", fmt.Sprint(derr))
+			}
+			r.Stats.Collected++
+			b, err = readPieces(rc, s.Pieces)
+			r.Stats.OpClass["getreader_gc_overwritten/"+kind+"/"+string(Class(err))]++
+			matched := false
+			for _, o := range e.Vals {
+				if !o.Missing && err == nil && string(b) == o.Val {
+					matched = true
+				}
+			}
+			if !matched {
+				return r.mism(idx, s, "", "reader-changed-by-overwrite+collection op=getreader_gc actor="+kind, "the value at the time the reader was opened", actualString(b, err))
+			}
+			break
+		}
 		if err == nil {
 			if cerr := r.Env.Collect(); cerr != nil {
 				return r.mism(idx, s, "", "collect-failed", "ok", fmt.Sprint(cerr))
